@@ -74,7 +74,8 @@ pub fn compile(
 
 impl CompiledExpression {
     pub fn scheme<S: AsRef<str>>(&self, mdt: S) -> String {
-        let mdt = mdt.as_ref();
+        // The path is inserted in a Scheme string literal: escape what would end or alter it
+        let mdt = mdt.as_ref().replace('\\', "\\\\").replace('"', "\\\"");
         format!(
             "(use-modules (lipe) (lipe find){})
 
